@@ -2,9 +2,11 @@
    list, prod, sumbool, sumor map to the OCaml types; N, Z, positive, nat, ascii/string stay extracted datatypes;
    oracles (hash primitive, matcher, ...) are ordinary function arguments.  No directive of our own. *)
 Require Import ExtrOcamlBasic.
-From MHL Require Import Model.Stream.
+From MHL Require Import Model.Stream Model.World.
 Extraction Language OCaml.
 Extraction "../ocaml/model.ml"
   t fmt_name fmt_of_name all_fmts width
   hex_enc hex_dec c4_enc_value c4_string_digest c4_dec_value c4_bytes_from_string enc dec
-  hash_file_loop hash_file_plan agg_loop hash_file hash_data multi_hash_file multi_hash_data digest_text.
+  hash_file_loop hash_file_plan agg_loop hash_file hash_data multi_hash_file multi_hash_data digest_text
+  set_patterns hash_of_hash_list structure_item seal validate_records
+  do_step run load dirhash events.
